@@ -25,6 +25,8 @@ type Answer struct {
 	Refresh   string   `json:"refresh,omitempty"`
 	Email     string   `json:"email,omitempty"`
 	Groups    []string `json:"groups,omitempty"`
+	// RetryAfter, if set, is sent as the Retry-After header of a 429 / 503 answer (seconds or an HTTP date)
+	RetryAfter string `json:"retry_after,omitempty"`
 }
 
 // Call is one request the fake authenticator received.
@@ -201,6 +203,9 @@ func (fa *FakeAuth) serve(w http.ResponseWriter, r *http.Request) {
 		st := statusOf(a.Class)
 		if st == 0 {
 			st = 500
+		}
+		if a.RetryAfter != "" {
+			w.Header().Set("Retry-After", a.RetryAfter)
 		}
 		w.WriteHeader(st)
 		if ep == "validate" && (st == 401 || st == 400) {
